@@ -86,8 +86,11 @@ fn images(db: &LocustDB, names: &[String]) -> (String, Vec<String>) {
 struct Live { db: Arc<LocustDB>, img: String, img_classes: Vec<String> }
 
 fn build(t: &LTable, r: &Realisation) -> Live {
+    let t0 = Instant::now();
     let db = realise(t, r);
+    let t1 = t0.elapsed();
     let (img, img_classes) = images(&db, &t.names);
+    if std::env::var("C03_TIMING").is_ok() { eprintln!("build {:?} images {:?} flushes {:?}", t1, t0.elapsed() - t1, r.flush); }
     Live { db, img, img_classes }
 }
 
@@ -98,13 +101,33 @@ impl Ctx {
 
     /// Run one predicate; a panic / hang costs the database a worker thread, so rebuild it afterwards.
     fn run(&mut self, live: &mut Live, t: &LTable, r: &Realisation, p: &Ex, class: &str) {
+        let p = &sanitize(p);
         let q = format!("SELECT id FROM t WHERE {}", p.sql(&t.names));
+        let tq = Instant::now();
         let out = query_full(&live.db, &q, true, 10);
+        if std::env::var("C03_TIMING").is_ok() { eprintln!("query {:?} {}", tq.elapsed(), out.tok().chars().take(12).collect::<String>()); }
         let model_line = format!("where {} {} {}", p.rpn(), t.tok(), live.img);
         self.cases.push(&format!("{}|p{}", class, r.partitions().min(3)), &model_line, &ids_tok(&out),
             &format!("{} | {} | {} | {} | {}", q, t.type_tag(), r.tag(), live.img_classes.join(","), out.detail()));
         let bad = matches!(out, QOut::Panic(_) | QOut::Hang) || matches!(&out, QOut::Err(k) if k == "canceled");
         if bad { *live = build(t, r); self.rebuilds += 1; }
+    }
+}
+
+/// `-9223372036854775808` is not an integer literal for the SQL parser (it negates the positive literal, which is
+/// not an i64): the model line would not denote what the SQL text says, so the generators never emit it.
+fn sanitize(e: &Ex) -> Ex {
+    let b = |x: &Ex| Box::new(sanitize(x));
+    match e {
+        Ex::Lit(Cell::Int(i)) if *i == i64::MIN => Ex::Lit(Cell::Int(i64::MIN + 1)),
+        Ex::Cmp(op, l, r) => Ex::Cmp(op, b(l), b(r)),
+        Ex::And(l, r) => Ex::And(b(l), b(r)),
+        Ex::Or(l, r) => Ex::Or(b(l), b(r)),
+        Ex::Not(x) => Ex::Not(b(x)),
+        Ex::IsNull(x) => Ex::IsNull(b(x)),
+        Ex::NotNull(x) => Ex::NotNull(b(x)),
+        Ex::Arith(op, l, r) => Ex::Arith(*op, b(l), b(r)),
+        other => other.clone(),
     }
 }
 
@@ -155,6 +178,14 @@ fn corpus(cx: &mut Ctx, rng: &mut Rng) {
                 cx.run(&mut live, &t, &r, &cmp(op, Ex::Col(3), Ex::Lit(Cell::Int(c))), &format!("corpus:encode-int{}", op));
             }
         }
+        // constant and non-boolean WHERE expressions: 0 is false, other integers true, NULL literal / non-boolean = error value
+        for (e, cl) in [(Ex::Lit(Cell::Int(0)), "const:0"), (Ex::Lit(Cell::Int(1)), "const:1"), (Ex::Lit(Cell::Int(2)), "const:2"), (Ex::Lit(Cell::Int(-1)), "const:-1"),
+            (Ex::Lit(Cell::Null), "const:null"), (Ex::Lit(Cell::f(1.5)), "const:float"), (Ex::Lit(Cell::Str("a".into())), "const:str"),
+            (Ex::Col(0), "nonbool:intcol"), (Ex::Col(2), "nonbool:nullable-intcol"), (Ex::Col(3), "nonbool:offset-intcol"), (Ex::Col(1), "nonbool:strcol"),
+            (Ex::Not(Box::new(Ex::Lit(Cell::Int(0)))), "const:not0"), (cmp("=", Ex::Lit(Cell::Int(0)), Ex::Lit(Cell::Int(0))), "const:0=0"),
+            (Ex::And(Box::new(id5.clone()), Box::new(Ex::Lit(Cell::Int(0)))), "const:and0"), (Ex::Or(Box::new(id5.clone()), Box::new(Ex::Lit(Cell::Int(1)))), "const:or1")] {
+            cx.run(&mut live, &t, &r, &e, &format!("corpus:{}", cl));
+        }
         // a column that does not exist (in this partition): every comparison with it is not true
         let t2 = { let mut t2 = t.clone(); t2.names.push("zz".into()); t2.types.push(ColType::Int("small")); t2.cols.push(vec![Cell::Null; 8]); t2 };
         let mut r2 = r.clone(); r2.omit_null_cols = true; r2.pref = 2;
@@ -187,8 +218,12 @@ fn int_consts(vals: &[i64]) -> Vec<(i64, &'static str)> {
     v
 }
 
-fn directed_ints(cx: &mut Ctx, rng: &mut Rng, thorough: bool) {
-    for class in ["u8", "u8off", "u16", "u16off", "u32", "u32off", "i64", "mono", "edges", "const", "small", "negoff"] {
+const INT_JOBS: &[&str] = &["u8off", "negoff", "u16", "u32off", "u8", "i64", "u16off", "mono", "u32", "edges", "const", "small"];
+const STR_JOBS: &[&str] = &["lowcard", "highcard", "pool"];
+const FLOAT_JOBS: &[&str] = &["dyadic", "edges", "f32"];
+
+fn directed_ints(cx: &mut Ctx, rng: &mut Rng, thorough: bool, class: &str) {
+    {
         for nullable in [false, true] {
             if cx.over() { return; }
             let n = *rng.pick(&[9usize, 17, 33]);
@@ -201,7 +236,7 @@ fn directed_ints(cx: &mut Ctx, rng: &mut Rng, thorough: bool) {
             let present: Vec<i64> = t.cols[1].iter().filter_map(|c| if let Cell::Int(i) = c { Some(*i) } else { None }).collect();
             let mut atoms = vec![];
             for (c, pos) in int_consts(&present) { for op in CMP_OPS { atoms.push((c, pos, *op)); } }
-            let take = if thorough { atoms.len() } else { 36 };
+            let take = if thorough { atoms.len() } else { 20 };
             for k in 0..take {
                 let (c, pos, op) = if thorough { atoms[k] } else { *rng.pick(&atoms) };
                 let swap = rng.chance(1, 4);
@@ -216,8 +251,8 @@ fn directed_ints(cx: &mut Ctx, rng: &mut Rng, thorough: bool) {
     }
 }
 
-fn directed_strs(cx: &mut Ctx, rng: &mut Rng, thorough: bool) {
-    for class in ["lowcard", "pool", "highcard"] {
+fn directed_strs(cx: &mut Ctx, rng: &mut Rng, thorough: bool, class: &str) {
+    {
         for nullable in [false, true] {
             if cx.over() { return; }
             let n = *rng.pick(&[9usize, 17, 33]);
@@ -233,7 +268,7 @@ fn directed_strs(cx: &mut Ctx, rng: &mut Rng, thorough: bool) {
             if let Some(f) = sorted.iter().find(|s| !s.is_empty()) { let mut b = f.clone(); b.pop(); consts.push((b, "before")); }
             let mut atoms = vec![];
             for (c, pos) in &consts { for op in CMP_OPS { atoms.push((c.clone(), *pos, *op)); } }
-            let take = if thorough { atoms.len() } else { 30 };
+            let take = if thorough { atoms.len() } else { 24 };
             for k in 0..take {
                 let (c, pos, op) = if thorough { atoms[k].clone() } else { rng.pick(&atoms).clone() };
                 let swap = rng.chance(1, 4);
@@ -249,20 +284,65 @@ fn directed_strs(cx: &mut Ctx, rng: &mut Rng, thorough: bool) {
 }
 
 /// LIKE against the reference %/_ matcher of the driver (differential only; the regex rewriting is not modelled).
-fn likes(cx: &mut Ctx, rng: &mut Rng, thorough: bool) {
-    let pats = ["%", "a%", "%a", "%a%", "a_", "_", "__", "ab%", "%b%c", "a%c", "", "abc", "%%", "a%%", "_%", "%_", "b_%", "%0", "d%f", "x y", "%é%"];
-    for class in ["pool", "lowcard", "highcard"] {
+fn directed_floats(cx: &mut Ctx, rng: &mut Rng, thorough: bool, class: &str) {
+    for nullable in [false, true] {
+        if cx.over() { return; }
+        let n = *rng.pick(&[9usize, 17, 33]);
+        let fl = gen_floats(rng, n, class);
+        let cells: Vec<Cell> = fl.iter().map(|f| Cell::f(*f)).collect();
+        let cells = if nullable { let m: Vec<bool> = (0..n).map(|i| i % 4 == 1).collect(); apply_nulls(cells, &m) } else { cells };
+        let ints: Vec<Cell> = (0..n).map(|_| Cell::Int(rng.range(-2000, 2000))).collect();
+        let t = table_of(vec![(ColType::Float(Box::leak(class.to_string().into_boxed_str())), cells), (ColType::Int("small"), ints)]);
+        let r = single(n, rng.chance(1, 2), rng);
+        let mut live = build(&t, &r);
+        let mut consts: Vec<(Cell, &'static str)> = vec![(Cell::f(0.0), "zero"), (Cell::f(-0.0), "negzero"), (Cell::f(0.5), "half"), (Cell::f(1e300), "huge"), (Cell::f(-1e300), "-huge"),
+            (Cell::Int(0), "intconst"), (Cell::Int(3), "intconst"), (Cell::Int(-1000), "intconst")];
+        for f in fl.iter().take(4) { consts.push((Cell::f(*f), "member")); }
+        let mut atoms = vec![];
+        for (c, pos) in &consts { for op in CMP_OPS { atoms.push((c.clone(), *pos, *op)); } }
+        let take = if thorough { atoms.len() } else { 16 };
+        for k in 0..take {
+            let (c, pos, op) = if thorough { atoms[k].clone() } else { rng.pick(&atoms).clone() };
+            let swap = rng.chance(1, 4);
+            let e = if swap { cmp(flip(op), Ex::Lit(c), Ex::Col(1)) } else { cmp(op, Ex::Col(1), Ex::Lit(c)) };
+            cx.run(&mut live, &t, &r, &e, &format!("f:{}{}{}{}{}", class, if nullable { "?" } else { "" }, op, pos, if swap { "~" } else { "" }));
+        }
+        for e in [Ex::IsNull(Box::new(Ex::Col(1))), Ex::NotNull(Box::new(Ex::Col(1))), cmp("<", Ex::Col(1), Ex::Col(2)), cmp(">=", Ex::Col(2), Ex::Col(1)), cmp("=", Ex::Col(1), Ex::Col(1))] {
+            let cl = format!("f:{}{}:{}", class, if nullable { "?" } else { "" }, e.shape());
+            cx.run(&mut live, &t, &r, &e, &cl);
+        }
+    }
+}
+
+fn likes(cx: &mut Ctx, rng: &mut Rng, thorough: bool, class: &str) {
+    // `%%` (the engine's spelling of a literal percent sign) and backslash escapes are dialect specific: not generated
+    let pats = ["%", "_", "a%", "%a", "_b", "%a%", "a_", "__", "a%b%c", "ab%", "%b%c", "a%c", "", "abc", "a__", "_%", "%_", "b_%", "%0", "d%f", "x y", "%é%", "%_%", "_%_"];
+    {
         if cx.over() { return; }
         let n = 17;
         let strs = gen_strs(rng, n, class);
         let t = table_of(vec![(ColType::Str("like"), strs.iter().map(|s| Cell::Str(s.clone())).collect())]);
         let r = single(n, rng.chance(1, 2), rng);
         let live = build(&t, &r);
-        for p in pats.iter().take(if thorough { pats.len() } else { 12 }) {
+        for p in pats.iter().take(if thorough { pats.len() } else { 10 }) {
             let q = format!("SELECT id FROM t WHERE c1 LIKE '{}'", p);
             let out = query_full(&live.db, &q, true, 10);
             cx.cases.push(&format!("like:{}", class), &format!("like {} {}", hexs(p), cells_tok(&t.cols[1])), &ids_tok(&out), &q);
         }
+    }
+}
+
+fn random_table(cx: &mut Ctx, rng: &mut Rng, per_table: usize) {
+    let n = *rng.pick(&[1usize, 2, 5, 8, 9, 16, 17, 33, 70]);
+    let extra = 1 + rng.below(3) as usize;
+    let t = gen_table(rng, n, extra, true, true);
+    let r = no_compaction(gen_realisation(rng, n, false));
+    let mut live = build(&t, &r);
+    for _ in 0..per_table {
+        let depth = rng.below(4) as u32;
+        let (p, class) = gen_pred(rng, &t, depth, true);
+        let shape = if class.len() > 48 || class.contains('(') { format!("tree:{}", p.shape().chars().filter(|c| "&|!".contains(*c)).collect::<String>()) } else { class };
+        cx.run(&mut live, &t, &r, &p, &shape);
     }
 }
 
@@ -271,25 +351,20 @@ fn main() {
     quiet_panics();
     let mut rng = Rng::new(args.seed);
     let thorough = args.thorough();
-    let mut cx = Ctx { cases: Cases::create(&args.out), t0: Instant::now(), budget_s: if thorough { 1200 } else { 75 }, rebuilds: 0 };
+    let mut cx = Ctx { cases: Cases::create(&args.out), t0: Instant::now(), budget_s: if thorough { 1200 } else { 60 }, rebuilds: 0 };
     corpus(&mut cx, &mut rng);
-    directed_ints(&mut cx, &mut rng, thorough);
-    directed_strs(&mut cx, &mut rng, thorough);
-    likes(&mut cx, &mut rng, thorough);
-    let (tables, per_table) = if thorough { (400, 40) } else { (60, 22) };
-    for _ in 0..tables {
+    // interleave the directed classes with random tables so that every kind gets its share of the time budget
+    let rounds = if thorough { 40 } else { 12 };
+    let per_table = if thorough { 40 } else { 18 };
+    for k in 0..rounds {
         if cx.over() { break; }
-        let n = *rng.pick(&[1usize, 2, 5, 8, 9, 16, 17, 33, 70]);
-        let extra = 1 + rng.below(3) as usize;
-        let t = gen_table(&mut rng, n, extra, true, true);
-        let r = no_compaction(gen_realisation(&mut rng, n, false));
-        let mut live = build(&t, &r);
-        for _ in 0..per_table {
-            let depth = rng.below(4) as u32;
-            let (p, class) = gen_pred(&mut rng, &t, depth, true);
-            let shape = if class.len() > 48 || class.contains('(') { format!("tree:{}", p.shape().chars().filter(|c| "&|!".contains(*c)).collect::<String>()) } else { class };
-            cx.run(&mut live, &t, &r, &p, &shape);
-        }
+        directed_ints(&mut cx, &mut rng, thorough, INT_JOBS[k % INT_JOBS.len()]);
+        random_table(&mut cx, &mut rng, per_table);
+        directed_strs(&mut cx, &mut rng, thorough, STR_JOBS[k % STR_JOBS.len()]);
+        random_table(&mut cx, &mut rng, per_table);
+        if k % 2 == 0 { directed_floats(&mut cx, &mut rng, thorough, FLOAT_JOBS[(k / 2) % FLOAT_JOBS.len()]); }
+        if k % 2 == 1 { likes(&mut cx, &mut rng, thorough, STR_JOBS[(k / 2) % STR_JOBS.len()]); }
+        for _ in 0..(if thorough { 6 } else { 2 }) { if !cx.over() { random_table(&mut cx, &mut rng, per_table); } }
     }
     eprintln!("c03: {} cases, {} rebuilds, {:.1}s", cx.cases.n, cx.rebuilds, cx.t0.elapsed().as_secs_f64());
     cx.cases.finish();
